@@ -2,6 +2,7 @@ package main
 
 import (
 	"strings"
+	"time"
 
 	"github.com/enbility/ship-go/zzverif/hx"
 	"github.com/enbility/ship-go/zzverif/mdnsscen"
@@ -39,6 +40,7 @@ func c19Main(r *hx.Run) {
 	gs := hx.GExploreAll(r, ms)
 	viol := hx.GConfirm(gs, ms)
 	hx.SetWorkerMode("s")
+	r.EnsureBudget(60 * time.Second)
 	ss := hx.ExploreAll(r, scens, true, 0)
 	viol = append(viol, hx.ConfirmViolations(ss, scens)...)
 	cov := gs.Coverage()
